@@ -36,6 +36,12 @@ type ShardOpts struct {
 	// OnDeath is called in the parent when a worker died (or stalled) while case i was in flight.
 	// kind is "exit", "stall"; stderrTail is the end of the worker's stderr.
 	OnDeath func(i int, kind string, stderrTail string)
+	// OnDeathDetail, if set, is called instead of OnDeath with what the worker last recorded by InFlight.
+	OnDeathDetail func(i int, kind string, stderrTail string, detail []byte)
+	detailOut     *[]byte
+	// Abort, if set, is asked before a worker is (re)started: true ends that worker's share (the
+	// caller reports the cap). Used once a check has seen enough hangs to have failed anyway.
+	Abort func() bool
 }
 
 type shardMsg struct {
@@ -231,11 +237,19 @@ func (r *Run) Sharded(n int, runCase func(i int), opts ShardOpts) {
 				if opts.WatchdogNow != nil {
 					w = opts.WatchdogNow()
 				}
-				died, at, kind, tail := r.runWorker(k, workers, resume, -1, dir, w, opts)
+				if opts.Abort != nil && opts.Abort() {
+					return
+				}
+				var detail []byte
+				o := opts
+				o.detailOut = &detail
+				died, at, kind, tail := r.runWorker(k, workers, resume, -1, dir, w, o)
 				if !died {
 					return
 				}
-				if opts.OnDeath != nil {
+				if opts.OnDeathDetail != nil {
+					opts.OnDeathDetail(at, kind, tail, detail)
+				} else if opts.OnDeath != nil {
 					opts.OnDeath(at, kind, tail)
 				} else if kind == "exit" && SiteFromTrace(tail) == "?" {
 					Infra("worker died outside the code under test while case %d was in flight:\n%s", at, Trunc(tail, 1500))
@@ -380,6 +394,9 @@ func (r *Run) runWorker(k, of, resume, only int, dir string, wd time.Duration, o
 	close(stop)
 	select {
 	case at = <-stall:
+		if opts.detailOut != nil {
+			*opts.detailOut = readDetail(prog)
+		}
 		return true, at, "stall", errTail.String()
 	default:
 	}
@@ -390,6 +407,9 @@ func (r *Run) runWorker(k, of, resume, only int, dir string, wd time.Duration, o
 				return true, -1, "exit", errTail.String()
 			}
 			Infra("worker %d failed outside any case: %v: %s", k, werr, errTail.String())
+		}
+		if opts.detailOut != nil {
+			*opts.detailOut = readDetail(prog)
 		}
 		return true, int(cur - 1), "exit", errTail.String()
 	}
@@ -411,6 +431,36 @@ func (r *Run) Heartbeat() {
 		binary.LittleEndian.PutUint64(buf[:], c.beats)
 		c.progress.WriteAt(buf[:], 8)
 	}
+}
+
+// InFlight records (in the progress file) what the case in flight is working on right now, so that
+// a stall or death inside a case that covers many inputs can be attributed to one of them. The
+// parent hands the bytes to ShardOpts.OnDeathDetail. Also counts as a heartbeat.
+func (r *Run) InFlight(detail []byte) {
+	c := r.child
+	if c == nil || c.progress == nil {
+		return
+	}
+	if len(detail) > 1<<20 {
+		detail = detail[:1<<20]
+	}
+	buf := make([]byte, 4+len(detail))
+	binary.LittleEndian.PutUint32(buf, uint32(len(detail)))
+	copy(buf[4:], detail)
+	c.progress.WriteAt(buf, 16)
+	r.Heartbeat()
+}
+
+func readDetail(path string) []byte {
+	b, err := os.ReadFile(path)
+	if err != nil || len(b) < 20 {
+		return nil
+	}
+	n := int(binary.LittleEndian.Uint32(b[16:]))
+	if n > len(b)-20 {
+		n = len(b) - 20
+	}
+	return b[20 : 20+n]
 }
 
 // readBeat is the heartbeat counter of the progress file.
